@@ -208,13 +208,14 @@ struct SLik : public LikelihoodModel {
 };
 
 struct ResLog { bool called = false; double neff = 0, u1 = 0; bool u1ok = true; std::vector<int> parents; long neff_calls = 0, res_calls = 0;
-                std::vector<double> cw, cs; };   // weights handed to neff(), first state row handed to resample()
+                std::vector<double> cw, cs; MatrixXd cor_state; };   // weights handed to neff(), first state row handed to resample()
 
 struct SResampling : public Resampling {
     SResampling(unsigned int seed, long n, ResLog* log) : Resampling(seed), twin_(seed), n_(n), log_(log) {}
     void resample(const ParticleSet& cor, ParticleSet& res, Ref<VectorXi> par) override {
         double u1 = twin_u1(twin_, n_);
         log_->called = true; log_->u1 = u1; log_->u1ok = (u1 > 0.0 && u1 < 1.0 / n_); ++log_->res_calls;
+        log_->cor_state = cor.state();
         log_->cs.clear(); for (long i = 0; i < cor.state().cols(); ++i) log_->cs.push_back(cor.state().rows() ? cor.state()(0, i) : 0.0);
         Resampling::resample(cor, res, par);
         log_->parents.assign(par.data(), par.data() + par.size());
@@ -259,8 +260,20 @@ struct SSIS : public SIS {
         bool rows_ok = true;
         for (long i = 0; i < c.state().cols(); ++i)
             for (long r = 0; r < c.state().rows(); ++r) if (c.state()(r, i) != c.state()(0, i) + 0.001953125 * r) rows_ok = false;
+        // after a resampling: is every column a bit-for-bit copy of the corrected column at its reported parent?
+        if (log_->called) {
+            bool copies = (long)log_->parents.size() == (long)c.state().cols() && log_->cor_state.rows() == c.state().rows();
+            for (long j = 0; copies && j < c.state().cols(); ++j) {
+                long q = log_->parents[j];
+                if (q < 0 || q >= log_->cor_state.cols()) { copies = false; break; }
+                MatrixXd a = c.state().col(j), bcol = log_->cor_state.col(q);
+                if (!vh::same_bits(a, bcol)) copies = false;
+            }
+            rows_ok = rows_ok && copies;
+            copies_ok_ = copies;
+        } else copies_ok_ = true;
         o.s("X").n(c.state().rows()).n(c.mean().rows()).n(c.mean().cols()).n(c.covariance().rows()).n(c.covariance().cols())
-         .n(c.dim).n(c.use_quaternion ? 1 : 0).n(rows_ok ? 1 : 0).n(log_->u1ok ? 1 : 0).d(log_->u1)
+         .n(c.dim).n(c.use_quaternion ? 1 : 0).n(copies_ok_ ? 1 : 0).n(log_->u1ok ? 1 : 0).d(log_->u1)
          .n(log_->neff_calls).n(log_->res_calls);
         o.n(log_->cw.size()); for (double v : log_->cw) o.d(v);
         o.n(log_->cs.size()); for (double v : log_->cs) o.d(v);
@@ -268,7 +281,7 @@ struct SSIS : public SIS {
         o.n(p.state().cols()); for (long i = 0; i < p.state().cols(); ++i) o.d(p.state().rows() ? p.state()(0, i) : 0.0);
         blocks.push_back(o.str());
     }
-    Script* s_; ResLog* log_; bool skip_ok_ = true; std::vector<std::string> blocks;
+    Script* s_; ResLog* log_; bool skip_ok_ = true, copies_ok_ = true; std::vector<std::string> blocks;
 };
 
 static std::string op_sis(Toks& t) {
